@@ -186,10 +186,26 @@ class Run:
         self.unreproduced = 0
         self.exhaustive = None
         self.extra = {}
+        self.part_problems = []
 
     @property
     def thorough(self):
         return self.tier == "thorough"
+
+    def part(self, name, thunk):
+        """run one part of a check; a harness error / inconclusive result of one part does not hide a violation found
+        by another part (it is reported at the end if no violation was replayed)"""
+        try:
+            thunk()
+        except Inconclusive as e:
+            self.part_problems.append(("inconclusive", name, str(e)))
+            print(f"PART-INCONCLUSIVE {self.pid}/{name}: {e}", flush=True)
+        except Exception as e:  # noqa
+            self.part_problems.append(("error", name, f"{type(e).__name__}: {str(e)[:2000]}"))
+            print(f"PART-ERROR {self.pid}/{name}: {type(e).__name__}: {str(e)[:3000]}", flush=True)
+
+    def pmap(self, name, func, items, **kw):
+        self.part(name, lambda: self.add_candidates(pmap(func, items, **kw)))
 
     def candidate(self, payload):
         """payload: dict with 'signature' (dict), 'what' (str), and whatever replay needs"""
@@ -315,6 +331,10 @@ def main_wrapper(pid, tier, seed, body):
         run.triage()
         if run.violations:
             status, code = "violation", 1
+        elif any(k == "error" for k, _, _ in run.part_problems):
+            status, code = "harness error: " + "; ".join(f"{n}: {m[:300]}" for k, n, m in run.part_problems if k == "error"), 2
+        elif run.part_problems:
+            status, code = "inconclusive: " + "; ".join(f"{n}: {m[:300]}" for k, n, m in run.part_problems), 3
         elif run.unreproduced:
             status, code = "inconclusive: counterexample(s) did not replay", 3
     except Inconclusive as e:
